@@ -147,7 +147,7 @@ func normField(s string) string {
 	return s
 }
 
-var reGetterCall = regexp.MustCompile(`\(\*?whispertool\.(\w+)\)\.(\w+)\(([^()]*)\)`)
+var reGetterCall = regexp.MustCompile(`whispertool\.(\w+)\.(\w+)\(([^()]*)\)`)
 
 // normGetters rewrites calls of trivial getters (methods whose every return
 // is the receiver's field F, apart from a zero value under a nil guard) to
